@@ -71,8 +71,17 @@ def load_plugins(config: 'ConfigService', custom=None) -> List['Plugin']:
         except Exception as e:
             logging.debug("Could not load plugin %s: %s", plugin, e)
 
-    loaded.sort(key=lambda pl: pl.order() or 0)
+    loaded.sort(key=__plugin_order)
     return loaded
+
+
+def __plugin_order(plugin: 'Plugin') -> int:
+    try:
+        return plugin.order() or 0
+    except Exception as e:
+        # a plugin that cannot tell us its order still gets loaded, it just gets the default order
+        logging.debug("Could not get order of plugin %s: %s", plugin.name, e)
+        return 0
 
 
 class Plugin(abc.ABC):
